@@ -1,5 +1,6 @@
 import Rare.Drv.Expr
 import Rare.Spec.C17Wf
+import Rare.Spec.C17Wrap
 import Rare.Spec.C17Atoi
 /-!
 Ops of C17 (besides the shared `expr` op):
@@ -19,6 +20,10 @@ Ops of C17 (besides the shared `expr` op):
                                                      real helper:
        spec split <s> <d> | spec join <arr> <d> | spec len <arr> | spec select <arr> <i>
        spec slice <arr> <start> <len | -> | spec range <start> <stop> <incr> | spec in <v> <arr>
+       spec reduce <arr> <reducer id> <init | - | e>  (`-`: no third argument, `e`: an explicit `""`) `C17.reduce` with the reducer as a Lean function (`redFn`; the
+                                                      harness runs the template of the same id)
+       (`spec select` / `spec slice` also evaluate the all-lists forms `selectW` / `sliceW` of
+       `Spec/C17Wrap.lean` and answer `spec-disagree` unless they coincide with `select` / `pack ∘ slice`)
 -/
 namespace Rare.Drv.C17
 open Rare Rare.Expr Rare.Proto Rare.Expr.Funcs.Range
@@ -54,6 +59,20 @@ def listView (v : Bytes) : String :=
 /-- A specified element list as the harness sees it (`strings.Split` of the value): `pack` and read back. -/
 def specList (ys : List Bytes) : String := "ok " ++ listView (C17.pack ys)
 
+/-- The reducers of `spec reduce`, as functions of accumulator and element (harness: `c17Reducers`). -/
+def redFn (id : Nat) (a b : Bytes) : Bytes :=
+  match id with
+  | 0 => a ++ [45] ++ b                          -- "{0}-{1}"
+  | 1 => b                                       -- {1}
+  | 2 => a                                       -- {0}
+  | 3 => if a = [120] then b else []             -- {if {eq {0} x} {1}}
+  | 4 => if truthy b then a else []              -- {if {1} {0}}
+  | 5 => b ++ a                                  -- "{1}{0}"
+  | 6 => []                                      -- ""
+  | 7 => if a ≠ [] then a else b                 -- {coalesce {0} {1}}
+  | 8 => if a = b then [] else a ++ b            -- {if {neq {0} {1}} "{0}{1}"}
+  | _ => if truthy a then [] else b              -- {unless {0} {1}}
+
 def specHandle : List String → String
   | ["split", s, d] =>
     match Hex.dec s, Hex.dec d with
@@ -69,11 +88,19 @@ def specHandle : List String → String
     | none => "bad-args"
   | ["select", a, i] =>
     match Hex.dec a, i.toInt? with
-    | some ab, some iv => "ok " ++ Hex.enc (C17.select (C17.elems ab) iv)
+    | some ab, some iv =>
+      if C17.selectW (C17.elems ab) iv ≠ C17.select (C17.elems ab) iv then "spec-disagree"
+      else "ok " ++ Hex.enc (C17.select (C17.elems ab) iv)
     | _, _ => "bad-args"
+  | ["reduce", a, rid, ini] =>
+    match Hex.dec a, rid.toNat?, (if ini = "-" || ini = "e" then some [] else Hex.dec ini) with
+    | some ab, some id, some init => "ok " ++ Hex.enc (C17.reduce (redFn id) init (C17.elems ab))
+    | _, _, _ => "bad-args"
   | ["slice", a, st, ln] =>
     match Hex.dec a, st.toInt?, (if ln = "-" then some (-1) else ln.toInt?) with
-    | some ab, some sv, some lv => specList (C17.slice (C17.elems ab) sv lv)
+    | some ab, some sv, some lv =>
+      if C17.sliceW (C17.elems ab) sv lv ≠ C17.pack (C17.slice (C17.elems ab) sv lv) then "spec-disagree"
+      else specList (C17.slice (C17.elems ab) sv lv)
     | _, _, _ => "bad-args"
   | ["range", a, b, c] =>
     match a.toInt?, b.toInt?, c.toInt? with
